@@ -85,6 +85,21 @@ check("C12",
       "come from Session.tla; MC_Engine checks InvInputsOnce/InvCausal on all interleavings.",
       ENG, "TLA+ engine model + trace validation with causality clauses (TLC)", "DESIGN.md §4 C12")
 
+check("C18",
+      "CauchyDef.tla states the definition (sum over intermediate blocks and all splittings of the multi-order, zero = "
+      "absent term, one = identity) for a chain of 2-4 factors; Cauchy.tla models the loop of product_by_order one "
+      "iteration per action and TLC shows, for every cache/sentinel pattern of the two factors (hermitian on and off), "
+      "that the lazy rule computes the definition and never evaluates a cell whose complement is known zero. On the real "
+      "code: harness-built factor series (rectangular block grids, 1-3 parameters, sentinel patterns, Gaussian-integer "
+      "blocks, Hermitian products for hermitian=True) are multiplied by cauchy_dot_product and every element is "
+      "requested in random order; Trace_Cauchy.tla (TLC) requires every finished product cell, intermediate products "
+      "included, and every returned value to equal ChainDef computed from the factor tables, the factor-request guard "
+      "to hold in the model's cache state at every Begin, and the factor elements to be unmutated afterwards.",
+      "Trusted: TLC/SANY 1.8.0, Json module, the tracer (cache hits unobserved), exact float arithmetic on small "
+      "Gaussian integers, reduction mod p=46199. Known finding: a bare `one` term added to another term raises "
+      "TypeError (listed in known_findings.json by structural class).",
+      "TLA+ definition of the Cauchy product as trace-validation oracle + TLA+ model of product_by_order (TLC exhaustive)",
+      "DESIGN.md §4 C18")
 check("C19",
       "Indexing.tla transcribes numpy indexing for integers (negative on finite dimensions), lists and forward slices; "
       "MC_Indexing enumerates all ~23k expressions over the component menus for shape (2,3)+1 (thorough: also (2,)+2) and "
